@@ -1391,6 +1391,40 @@ Definition pre17 (s : tds) : bool :=
                           (if fld_is val_truthy (zs "isFormula") c then true else col_data17 s c)
                      else true)) (recs T_COLUMNS s).
 
+(* migration 2: every section has hashable numeric tableRef / parentId cells and a parentKey; a 'record' section's
+   tableRef is the (int) id of a _grist_Tables record *)
+Definition is_num (v : val) : bool := match val_num v with Ok _ => true | Err _ => false end.
+Definition sec_pre2 (s : tds) (sec : record) : bool :=
+  fld_is (fun v => hashable v && is_num v) (zs "tableRef") sec && has_fld (zs "parentKey") sec &&
+  fld_is (fun v => hashable v && is_num v) (zs "parentId") sec &&
+  (if fld_is (fun k => py_eq k (VStr (zs "record"))) (zs "parentKey") sec
+   then fld_is (fun v => match v with VInt z => rid_mem (Some z) (rows_of_model T_TABLES s) | _ => false end) (zs "tableRef") sec
+   else true).
+Definition pre2 (s : tds) : bool :=
+  J_b s && has_table_b T_SECTIONS s && has_table_b T_TABLES s && forallb (sec_pre2 s) (recs T_SECTIONS s).
+
+(* migration 1: the sections have hashable numeric tableRef / parentId cells; _grist_DocInfo exists; tables that
+   already exist (Attachments, TabItems) have typed schemas *)
+Definition pre1 (s : tds) : bool :=
+  J_b s && has_table_b T_SECTIONS s && has_table_b T_DOCINFO s &&
+  (if has T_ATTACHMENTS (t_data s) then true else true) &&
+  (if has T_TABITEMS (t_data s) then typed_table_b T_TABITEMS s else true) &&
+  forallb (fun sec => fld_is (fun v => hashable v && is_num v) (zs "tableRef") sec &&
+                      fld_is (fun v => hashable v && is_num v) (zs "parentId") sec) (recs T_SECTIONS s).
+
+(* migration 31 (body): string tableIds; a truthy summarySourceTable is hashable and names a table record; the
+   columns have a hashable parentId, a string colId, a string formula and a summarySourceCol; the ACL
+   resources have a hashable tableId *)
+Definition pre31 (s : tds) : bool :=
+  has_table_b T_COLUMNS s && has_table_b T_TABLES s && has_table_b T_ACLRESOURCES s &&
+  forallb (fun t => fld_is is_text (zs "tableId") t &&
+                    fld_is (fun v => negb (val_truthy v) ||
+                                     (hashable v && match pd_get v (tables_by_id s) with Some _ => true | None => false end))
+                           (zs "summarySourceTable") t) (recs T_TABLES s) &&
+  forallb (fun c => fld_is hashable (zs "parentId") c && fld_is is_text (zs "colId") c &&
+                    fld_is is_text (zs "formula") c && has_fld (zs "summarySourceCol") c) (recs T_COLUMNS s) &&
+  forallb (fld_is hashable (zs "tableId")) (recs T_ACLRESOURCES s).
+
 (* ---------- oracle tables and the check used by the generated cases ---------- *)
 Definition jnum_eqb (a b : jnum) : bool :=
   match a, b with
@@ -1489,6 +1523,7 @@ Definition pre_of (o : oracles) (v : Z) : tds -> bool :=
   else if Z.eqb v 26 then pre26 else if Z.eqb v 30 then pre30 else if Z.eqb v 40 then pre40
   else if Z.eqb v 25 then pre25 else if Z.eqb v 28 then pre28
   else if Z.eqb v 20 then pre20 else if Z.eqb v 3 then pre3 else if Z.eqb v 17 then pre17
+  else if Z.eqb v 2 then pre2 else if Z.eqb v 1 then pre1 else if Z.eqb v 31 then pre31
   else fun _ => true.
 
 (* versions whose modelled body does not reproduce the recorded actions on the state it ran on (v), or whose
